@@ -784,6 +784,139 @@ def fam_recurse(rnd, i):
     return steps
 
 
+# ---------------------------------------------------------------- kqueue backend (on the simulated kqueue)
+
+def kq_epilogue(close=True):
+    st = [{"s": "drain"}, call("w1", "watchlist"), {"s": "obs"}]
+    if close:
+        st += [call("w1", "close"), {"s": "drain"}, {"s": "obs"}, call("w1", "add", ("d1",), "rel"), call("w1", "remove", ("d1",), "rel"), call("w1", "watchlist")]
+    return st
+
+
+def fam_kqdir(rnd, i, symlinks=False):
+    """kqueue: sequential histories of create/write/chmod/truncate/remove/rename/mkdir/rmdir inside one or two
+    watched directories (re-use of names, overwrite by rename, moves in and out), each followed by a drain;
+    Add/Remove/WatchList in between; descriptors and tables observed at quiescence."""
+    w = "w1"
+    f = FS()
+    steps = []
+    for d in (("d1",), ("d2",), ("u",)):
+        steps.append(fs("mkdir", d))
+        f.add(d, "dir")
+    for d in (("d1",), ("d2",), ("u",)):
+        for n in rnd.sample(NAMES, rnd.randint(0, 3)):
+            steps.append(fs("create", d + (n,)))
+            f.add(d + (n,), "file")
+    if rnd.random() < 0.5:
+        steps.append(fs("mkdir", ("d1", "s1")))
+        f.add(("d1", "s1"), "dir")
+    steps.append(new(w, rnd.choice([0, 0, 4, None])))
+    sp = rnd.choice(["rel", "abs", "dot", "rel", "trail", "dbl"])
+    watched = [("d1",)]
+    via = ("d1",)
+    if symlinks and rnd.random() < 0.6:
+        steps.append(fs("symlink", ("ld",), tgt={"abs": rnd.random() < 0.5, "c": ["d1"]}))
+        via = ("ld",)
+    steps.append(call(w, "add", via, sp, rnd))
+    if rnd.random() < 0.5:
+        steps.append(call(w, "add", ("d2",), rnd.choice(["rel", "abs"])))
+        watched.append(("d2",))
+    if rnd.random() < 0.2 and f.files():
+        steps.append(call(w, "add", rnd.choice(f.files()), "rel"))
+    steps.append({"s": "obs"})
+    dirs = [("d1",), ("d2",), ("u",)]
+    for _ in range(rnd.randint(3, 14)):
+        r = rnd.random()
+        files = [p for p in f.files() if len(p) == 2]
+        st = None
+        if r < 0.18:
+            p = rnd.choice(dirs) + (rnd.choice(NAMES),)
+            if not f.exists(p):
+                f.add(p, "file")
+                st = fs("create", p)
+        elif r < 0.40 and files:
+            st = fs(rnd.choice(["write", "chmod", "trunc"]), rnd.choice(files))
+        elif r < 0.52 and files:
+            p = rnd.choice(files)
+            f.rm(p)
+            st = fs("unlink", p)
+        elif r < 0.75 and files:
+            a = rnd.choice(files)
+            b = rnd.choice(dirs) + (rnd.choice(NAMES),)
+            if a != b and not f.isdir(b):
+                f.mv(a, b)
+                st = fs("rename", a, to=b)
+        elif r < 0.82:
+            p = rnd.choice([("d1",), ("d2",)]) + (rnd.choice(["s1", "s2"]),)
+            if not f.exists(p):
+                f.add(p, "dir")
+                st = fs("mkdir", p)
+        elif r < 0.88:
+            cand = [d for d in f.dirs() if len(d) == 2 and not f.children(d)]
+            if cand:
+                p = rnd.choice(cand)
+                f.rm(p)
+                st = fs("rmdir", p)
+        elif r < 0.92:
+            steps.append(call(w, "watchlist"))
+        elif r < 0.96:
+            steps += [call(w, "remove", rnd.choice(watched), rnd.choice(["rel", "abs"])), {"s": "obs"}]
+        else:
+            steps.append(call(w, "add", rnd.choice(watched), rnd.choice(["rel", "abs", "dot"])))
+        if st:
+            steps += [st, {"s": "drain"}]
+        if rnd.random() < 0.25:
+            steps.append({"s": "obs"})
+    mode = rnd.choice(["remove_all", "close", "close", "rmrf"])
+    steps += [{"s": "drain"}, call(w, "watchlist"), {"s": "obs"}]
+    if mode == "remove_all":
+        steps += [call(w, "remove", via, sp, rnd), call(w, "remove", ("d2",), "rel"), {"s": "drain"}, {"s": "obs"}, call(w, "watchlist")]
+    elif mode == "rmrf":
+        steps += [fs("rmrf", ("d1",)), {"s": "drain"}, {"s": "obs"}, call(w, "watchlist")]
+    steps += [call(w, "close"), {"s": "drain"}, {"s": "obs"}, call(w, "add", ("d2",), "rel"), call(w, "remove", ("d2",), "rel"), call(w, "watchlist"), call(w, "close")]
+    return steps
+
+
+def fam_kqsym(rnd, i):
+    return fam_kqdir(rnd, i, symlinks=True)
+
+
+def fam_kqburst(rnd, i):
+    """kqueue: more than ten kevents pending between two reader wake-ups (operations on distinct existing
+    entries while the reader is held back by an unreceived event), then drain."""
+    w = "w1"
+    n = rnd.choice([3, 12, 25])
+    steps = [fs("mkdir", ("d1",))]
+    for k in range(1, n + 1):
+        steps.append(fs("create", ("d1", "x%d" % k)))
+    steps += [new(w, rnd.choice([0, 0, 2])), call(w, "add", ("d1",), rnd.choice(["rel", "abs"])), {"s": "obs"},
+              fs("chmod", ("d1", "x1"))]          # unreceived: the reader parks in its send
+    pat = rnd.choice([[fs("chmod", ("d1", "x%"))], [fs("write", ("d1", "x%"))], [fs("unlink", ("d1", "x%"))]])
+    steps.append({"s": "rep", "k": n, "pat": pat})
+    steps += [{"s": "drain"}, {"s": "obs"}, call(w, "watchlist"), call(w, "remove", ("d1",), "rel"), {"s": "obs"}, call(w, "close"), {"s": "drain"}, {"s": "obs"}]
+    return steps
+
+
+def fam_kqcycle(rnd, i, n=100):
+    """kqueue: add/remove cycles and create/remove cycles keep descriptor and table usage flat."""
+    w = "w1"
+    steps = [fs("mkdir", ("d1",)), fs("create", ("d1", "n1")), new(w, 0), {"s": "obs"}]
+    shape = rnd.choice(["add_remove", "entry_churn", "file_watch"])
+    if shape == "add_remove":
+        body = [call(w, "add", ("d1",), "rel"), call(w, "remove", ("d1",), "abs")]
+    elif shape == "entry_churn":
+        steps.append(call(w, "add", ("d1",), "rel"))
+        body = [fs("create", ("d1", "n2")), {"s": "drain"}, fs("write", ("d1", "n2")), fs("unlink", ("d1", "n2")), {"s": "drain"}]
+    else:
+        body = [call(w, "add", ("d1", "n1"), "rel"), fs("chmod", ("d1", "n1")), {"s": "drain"}, call(w, "remove", ("d1", "n1"), "rel")]
+    steps.append({"s": "loop", "n": n, "body": body})
+    steps += [{"s": "drain"}, {"s": "obs"}, call(w, "watchlist")]
+    if shape == "entry_churn":
+        steps += [call(w, "remove", ("d1",), "rel"), {"s": "obs"}]
+    steps += [call(w, "close"), {"s": "drain"}, {"s": "obs"}]
+    return steps
+
+
 def fam_multi(rnd, i):
     """The same history observed by several watchers with different buffer sizes, while other
     watchers on the same directories are created, used and closed."""
@@ -1054,6 +1187,7 @@ FAMS = {
     "absorb": fam_absorb, "withops": fam_withops, "repoint": fam_repoint, "stall": fam_stall, "spell": fam_spell,
     "endwatch": fam_endwatch, "paced": fam_paced, "ovfstall": fam_ovfstall, "ovflate": fam_ovflate,
     "parmoves": fam_parmoves, "multix": fam_multix, "recurse": fam_recurse,
+    "kqdir": fam_kqdir, "kqsym": fam_kqsym, "kqburst": fam_kqburst, "kqcycle": fam_kqcycle,
 }
 
 
@@ -1084,7 +1218,7 @@ def main():
     fn = FAMS[a.fam]
     for idx in range(a.n):
         kw = {}
-        if a.fam in ("cycle", "newclose") and "n" in params:
+        if a.fam in ("cycle", "newclose", "kqcycle") and "n" in params:
             kw["n"] = int(params["n"])
         if a.fam == "overflow" and "extra" in params:
             kw["extra"] = tuple(int(x) for x in params["extra"].split("+"))
